@@ -689,6 +689,34 @@ def xoutputs {α : Type} (ar : Registry → VExpr → α) (s : CState) : List XO
   | [] => []
   | op :: ops => (xstep lg ar s op).2 :: xoutputs ar (xstep lg ar s op).1 ops
 
+/-! ### WHICH exception a failing query raises
+
+The error enum `ErrKind` is coarse: every `UnitsError` subclass (`InvalidUnitError`,
+`InvalidQuantityTypeError`, `InvalidOperationError`, …) is `units`.  Which exception class a failing query
+raises is part of its answer.  The session model takes it as an UNINTERPRETED function `ed` of
+(registry, query): "the class a database built from that registry raises".  The memo tables are never
+an argument of `ed`, so every theorem about sessions holds for every such function; the correspondence
+check evaluates `ed` on the real code (a database freshly built from the same registrations) and
+compares the class the warm database raised with it. -/
+
+/-- the detail reported with a step: present exactly when the step is a query whose answer is a failure -/
+def detailOf {δ : Type} (ed : Registry → Query → δ) (s : CState) : XOp → Option δ
+  | .base (.query q) =>
+    match (answer lg s q).2 with
+    | .error _ => some (ed s.reg q)
+    | .ok _ => none
+  | _ => none
+
+/-- one step of a session, reporting the outcome and the failure detail -/
+def ystep {α δ : Type} (ar : Registry → VExpr → α) (ed : Registry → Query → δ) (s : CState) (op : XOp) :
+    CState × (XOut α × Option δ) :=
+  ((xstep lg ar s op).1, ((xstep lg ar s op).2, detailOf lg ed s op))
+
+def youtputs {α δ : Type} (ar : Registry → VExpr → α) (ed : Registry → Query → δ) (s : CState) :
+    List XOp → List (XOut α × Option δ)
+  | [] => []
+  | op :: ops => (ystep lg ar ed s op).2 :: youtputs ar ed (ystep lg ar ed s op).1 ops
+
 /-! ### several private databases alive at the same time
 
 A family of sessions indexed by numbers; every step is addressed to one of them.  Stated for any
